@@ -343,7 +343,7 @@ func (c *TunClient) Packets() []TunEvent {
 // websocket close frame).
 func (c *TunClient) Ended() bool {
 	for _, e := range c.Events {
-		if (e.Kind == "eof" || e.Kind == "rst") && (e.Conn == "ws" || e.Conn == "out") {
+		if e.Kind == "eof" || e.Kind == "rst" {
 			return true
 		}
 		if e.Kind == "wsclose" {
